@@ -191,7 +191,7 @@ def judge_validation_positions(ctx, quick):
     for _ in range(300 if quick else 10000):
         w = J.rand_schema(rng, rng.randint(1, 4))
         import check_c01
-        if w.kind not in "OA" or check_c01.has_nullable_container(w):      # nullable containers: known finding C01-nullable-container
+        if w.kind not in "OA":
             continue
         d = J.conforming(rng, w, False)
         p = plant(rng, w, d)
